@@ -450,7 +450,15 @@ impl<C: IterConfig> BucketIter<C> {
             None => {
                 if let Some((segment_id, index)) = live_indexes.get(&bucket_id) {
                     let segment_id = segment_id.load(Ordering::Acquire);
-                    if let Some((file_offsets, offsets_index)) = config
+                    // Only fall back to the live segment if it lies in the direction of
+                    // iteration; a reverse iterator that has already finished the live
+                    // segment must not read it again.
+                    let matches = match dir {
+                        IterDirection::Forward => segment_id >= next_segment_id,
+                        IterDirection::Reverse => segment_id <= next_segment_id,
+                    };
+                    if matches
+                        && let Some((file_offsets, offsets_index)) = config
                         .try_get_from_live_indexes(index, from_position, dir)
                         .await
                     {
